@@ -22,6 +22,7 @@ type GenParams struct {
 	LongTail   bool // tail long enough for repeat_interval obligations
 	DeepTree   bool
 	Flap       bool // prefix: resolve, then re-fire while the (slow) resolved notification is in flight
+	MuteGap    bool // sometimes start with the "muted during an intermediate notification, then resolved" prefix
 }
 
 func ip(i int) *int { return &i }
@@ -315,6 +316,53 @@ func GenScenario(t *rapid.T, p GenParams) Scenario {
 			}
 		} else if rapid.Bool().Draw(t, "flapok") {
 			sc.Steps = append(sc.Steps, Step{Dt: sampled(t, "flapokdt", 1, 30, 90), Op: "behave", Behave: &Behave{Receiver: rt.Receiver, Idx: idx, Kind: "ok"}})
+		}
+	}
+	if p.MuteGap && p.Silences && rapid.IntRange(0, 2).Draw(t, "mutegap") == 0 {
+		// A targeted prefix: two alerts of one group are reported firing; one of them is silenced while a third alert
+		// makes the group notify again (the log entry then no longer lists the silenced one); the silence ends, and the
+		// alert resolves while the others still fire: its resolution must be reported at the next flush.
+		type cand struct{ a, b, c int }
+		var cs []cand
+		key := func(i int) string {
+			rts := cfg.Match(sc.LabelSets[i])
+			if len(rts) == 0 {
+				return ""
+			}
+			return rts[0].ID + "|" + rts[0].GroupKey(sc.LabelSets[i])
+		}
+		for b := range sc.LabelSets {
+			for a := range sc.LabelSets {
+				for c := range sc.LabelSets {
+					if a != b && a != c && b != c && key(b) != "" && key(a) == key(b) && key(c) == key(b) {
+						cs = append(cs, cand{a, b, c})
+					}
+				}
+			}
+		}
+		if len(cs) > 0 {
+			x := cs[rapid.IntRange(0, len(cs)-1).Draw(t, "mgpick")]
+			// an equality that holds for b only
+			var only *ref.Matcher
+			for n, v := range sc.LabelSets[x.b] {
+				if sc.LabelSets[x.a][n] != v && sc.LabelSets[x.c][n] != v {
+					only = &ref.Matcher{Op: "=", Name: n, Value: v}
+				}
+			}
+			if only != nil {
+				rt := cfg.Match(sc.LabelSets[x.b])[0]
+				gw, gi := int(rt.GroupWait.Seconds()), int(rt.GroupInterval.Seconds())
+				t0 := sc.Opts.StartDelay + sampled(t, "mgt0", 1, 5, 30)
+				sc.Steps = append(sc.Steps,
+					Step{Dt: t0, Op: "post", Alerts: []PostAlert{{LS: x.a, End: ip(7200)}, {LS: x.b, End: ip(7200)}}},
+					Step{Dt: gw + gi + 5, Op: "silence", Silence: &SilenceSpec{Matchers: []ref.Matcher{*only}, EndOff: 3600}})
+				silSteps = append(silSteps, len(sc.Steps)-1)
+				sc.Steps = append(sc.Steps,
+					Step{Dt: 5, Op: "post", Alerts: []PostAlert{{LS: x.c, End: ip(7200)}}},
+					Step{Dt: gw + gi + 10, Op: "expire", SilRef: len(sc.Steps) - 1},
+					Step{Dt: sampled(t, "mgdt", 1, 5, 40), Op: "post", Alerts: []PostAlert{{LS: x.b, End: ip(-1)}}},
+					Step{Dt: gi + 130, Op: "noop"})
+			}
 		}
 	}
 	base := len(sc.Steps)
